@@ -11,6 +11,7 @@ RULE = ("tensor-op catalogue x call forms x argument grid (legal grid enumerated
         "reference + verdict table (value/raise x documented/undocumented); distinct key = (op, form, argclass, shape class, dtype, verdict "
         "kind); non-trivial = result has >1 element, or the case is on the rejection side")
 RULE += (' Added after the seeded rounds: operands stored as Fortran / strided / shared-base views; every factory call independent of what was written into an earlier result; integer / bool operands under a refuse-or-right verdict; IEEE special values (nan, +-inf, -0.0) and operands with an empty dimension through the data-movement, arithmetic and reduction ops.')
+RULE += (" Round 6 / reach monitor: tuple / list shape forms of randn / rand, randn moments, item(), list @ Tensor.")
 ASSUMPTIONS = ["reference models in harness/catalog.py are transcribed from the NumPy/PyTorch documentation; a value is 'prescribed' if either semantics defines it",
                "value tolerance = forward-error bound K*eps(dtype)*S with S the reference evaluated on |operands| and K = 32 + 4*log2(reduction length)",
                "an exception for an argument form the op's own docstring does not state is counted (rejected-undocumented), not a violation"]
